@@ -7,7 +7,7 @@ namespace Chess
 structure Ranges (p : Position) : Prop where
   castling : p.castling < 16
   ep : p.ep < 65
-  halfmove : p.halfmove < 256
+  halfmove : p.halfmove < 65536
   side : p.side ≤ 1
 
 theorem clearBits_le (x mask : Nat) : clearBits x mask ≤ x := by unfold clearBits; exact Nat.and_le_left
@@ -44,7 +44,7 @@ theorem ranges_doMove (T : ZTable) (p : Position) (m : Nat) (r : Ranges p) (ok :
   by_cases hc : moveCastling m ≠ 0
   · rw [if_pos hc]
     show Ranges (withHistory (doMoveCastle T (preMove T p) p.side m))
-    have key : ∀ a b c d, let q := movePiece T (movePiece T { (preMove T p) with halfmove := ((preMove T p).halfmove + 1) % 256 } a b) c d
+    have key : ∀ a b c d, let q := movePiece T (movePiece T { (preMove T p) with halfmove := ((preMove T p).halfmove + 1) % 65536 } a b) c d
         Ranges (withHistory { (setCastlingKey T { q with castling := clearBits q.castling (castlingRightsOf p.side) }) with ep := 64 }) := by
       intro a b c d q
       have sr : SameRest _ q := sameRest_trans (sameRest_move T _ a b) (sameRest_move T _ c d)
@@ -58,9 +58,9 @@ theorem ranges_doMove (T : ZTable) (p : Position) (m : Nat) (r : Ranges p) (ok :
         have h2 : (preMove T p).castling = p.castling := rfl
         simp only [] at *
         omega
-      · show q.halfmove < 256
+      · show q.halfmove < 65536
         rw [sr.halfmove]
-        show ((preMove T p).halfmove + 1) % 256 < 256
+        show ((preMove T p).halfmove + 1) % 65536 < 65536
         omega
       · show q.side ≤ 1
         rw [sr.side]
@@ -82,10 +82,10 @@ theorem ranges_doMove (T : ZTable) (p : Position) (m : Nat) (r : Ranges p) (ok :
     have sc1 := sameCore_clock (preMove T p) m
     generalize hp1 : clockStep (preMove T p) m = p1 at *
     have c1 : p1.castling = p.castling := by rw [← hp1]; unfold clockStep; split <;> rfl
-    have h1 : p1.halfmove < 256 := by
+    have h1 : p1.halfmove < 65536 := by
       rw [← hp1]; unfold clockStep; split
-      · show ((preMove T p).halfmove + 1) % 256 < 256; omega
-      · show 0 < 256; omega
+      · show ((preMove T p).halfmove + 1) % 65536 < 65536; omega
+      · show 0 < 65536; omega
     -- doMovePieces: castling shrinks, halfmove and side unchanged
     have hD : (doMovePieces T p1 p.side m).castling ≤ p1.castling ∧ (doMovePieces T p1 p.side m).halfmove = p1.halfmove ∧
         (doMovePieces T p1 p.side m).side = p1.side := by
@@ -109,7 +109,7 @@ theorem ranges_doMove (T : ZTable) (p : Position) (m : Nat) (r : Ranges p) (ok :
     refine ⟨?_, s3, ?_, ?_⟩
     · show (setEpAfter T _ _ _ _ _).castling < 16
       rw [s1]; have := r.castling; omega
-    · show (setEpAfter T _ _ _ _ _).halfmove < 256
+    · show (setEpAfter T _ _ _ _ _).halfmove < 65536
       rw [s2, hD.2.1]; exact h1
     · show (setEpAfter T _ _ _ _ _).side ≤ 1
       rw [sc.side, hD.2.2, sc1.side]
@@ -118,7 +118,7 @@ theorem ranges_doMove (T : ZTable) (p : Position) (m : Nat) (r : Ranges p) (ok :
 
 theorem ranges_doNull (T : ZTable) (p : Position) (r : Ranges p) : Ranges (doNull T p).1 := by
   refine ⟨r.castling, by show 64 < 65; omega, ?_, ?_⟩
-  · show (p.halfmove + 1) % 256 < 256; omega
+  · show (p.halfmove + 1) % 65536 < 65536; omega
   · show 1 - p.side ≤ 1; omega
 
 theorem two_moves_history (T : ZTable) (x : Position) (a b c d : Nat) :
@@ -142,11 +142,11 @@ theorem history_doMove (T : ZTable) (p : Position) (m : Nat) (h : p.history.leng
     unfold doMoveCastle; simp only []
     by_cases hK : moveCastling m = KING_CASTLING
     · rw [if_pos hK]
-      exact k2 { (preMove T p) with halfmove := ((preMove T p).halfmove + 1) % 256 }
+      exact k2 { (preMove T p) with halfmove := ((preMove T p).halfmove + 1) % 65536 }
         (mkSquare (if p.side = 0 then 0 else 7) 4) (mkSquare (if p.side = 0 then 0 else 7) 6)
         (mkSquare (if p.side = 0 then 0 else 7) 7) (mkSquare (if p.side = 0 then 0 else 7) 5)
     · rw [if_neg hK]
-      exact k2 { (preMove T p) with halfmove := ((preMove T p).halfmove + 1) % 256 }
+      exact k2 { (preMove T p) with halfmove := ((preMove T p).halfmove + 1) % 65536 }
         (mkSquare (if p.side = 0 then 0 else 7) 4) (mkSquare (if p.side = 0 then 0 else 7) 2)
         (mkSquare (if p.side = 0 then 0 else 7) 0) (mkSquare (if p.side = 0 then 0 else 7) 3)
   · apply key
